@@ -522,7 +522,14 @@ func (v *collator_[V]) rankMaps(first ref.Value, second ref.Value) Rank {
 		func(first, second [2]ref.Value) Rank {
 			var rank = v.rankValues(first[0], second[0])
 			if rank == EqualRank {
+				// The values are one level down, like in the loop below, so
+				// that a Go map that contains itself runs into the maximum.
+				if v.depth_ == v.maximum_ {
+					panic(fmt.Sprintf("The maximum traversal depth was exceeded: %v", v.depth_))
+				}
+				v.depth_++
 				rank = v.rankValues(first[1], second[1])
+				v.depth_--
 			}
 			return rank
 		},
